@@ -374,7 +374,9 @@ class ipv6 (packet_base):
     self.parsed = True
 
     #TODO: This should be done a better way (and shared with IPv4?).
-    if nht == self.UDP_PROTOCOL:
+    if self._nesting() >= self.MAX_NESTING:
+      self.next = raw[offset:offset+length] # Nested too deeply
+    elif nht == self.UDP_PROTOCOL:
       self.next = udp(raw=raw[offset:offset+length], prev=self)
     elif nht == self.TCP_PROTOCOL:
       self.next = tcp(raw=raw[offset:offset+length], prev=self)
